@@ -1,3 +1,6 @@
+import operator
+from functools import reduce
+
 import numpy as np
 import matplotlib.pyplot as plt
 
@@ -19,6 +22,11 @@ def writes_arg_in_place_operator(dgm):
     dgm[0] = 0
     dgm *= 2
     return dgm
+
+
+def writes_arg_through_operator_function(dgm, other):
+    # reduce(operator.iadd, ...) is `+=` on the first element, which is the caller's array
+    return reduce(operator.iadd, (dgm, other))
 
 
 def mutates_nested_list_element(dgms):
